@@ -72,6 +72,9 @@ def gen_cases(ctx):
                 t["setUp"]["fd2"] = rng.choice(["warning: noise\n", "1 2\n", "a b c\n", "\n", "x" * 3000 + "\n",
                                                  "caf\xe9 latin-1 noise\n", "\xff\xfe\x00 binary\n", "3 0 0 trailing words\n"])
         o = worlds.gen_opts(rng, allow=("j", "verbose", "repeat", "buffer"))
+        if rng.random() < 0.2:
+            from harness import corr_c12
+            corr_c12.make_flaky(rng, w, o)
         cases.append(cw.Case(w, o))
     # children that write raw fd-2 noise of every kind around a bad outcome
     for i in range(12 if ctx.quick() else 300):
